@@ -45,7 +45,7 @@ def run(pid, tier, seed):
         rep.add_tlc(r2)
     # 2. tours of the state graph -> scenarios
     inits, adj, n_edges = vlib.load_graph(dot)
-    max_tours = 2500 if tier == "quick" else None
+    max_tours = None
     ts, covered, total = vlib.tours(inits, adj, max_len=30, rng=rng, max_tours=max_tours)
     scen_path = os.path.join(d, "scen.ndjson")
     n_ops = 0
